@@ -176,12 +176,75 @@ pub fn semt_case(form: &str, target: &str, is_const: bool, prelude: &str, value:
     ))
 }
 
+/// declarations of a variable named `{n}`: every target type non-const, and a const of the common ones
+fn arith_vars() -> Vec<String> {
+    let mut v: Vec<String> = target_types().into_iter().map(|(t, _)| format!("{t} {{n}};")).collect();
+    for (t, init) in [("int", "3"), ("int[8]", "3"), ("int[32]", "3"), ("uint[8]", "3"), ("uint[32]", "3"), ("float", "1.5"), ("float[32]", "1.5"), ("float[64]", "1.5"), ("angle[8]", "1.5"), ("complex[float[64]]", "2im")] {
+        v.push(format!("const {t} {{n}} = {init};"));
+    }
+    v
+}
+
+/// operands of an arithmetic expression: which of them are wrapped in a cast, and to which type
+fn arith_case(da: &str, db: &str, op: &str) -> Option<String> {
+    let text = format!("{}\n{}\n(v {op} w);", da.replace("{n}", "v"), db.replace("{n}", "w"));
+    let o = run_sema(&text);
+    if o.panic.is_some() || o.any_syntax || !o.errors.is_empty() {
+        return None; // operators without support and pairs without a common type are other properties' business
+    }
+    let stmts: Vec<D> = o.stmts.iter().map(|s| parse_debug(s)).collect();
+    let probe = stmts.iter().rev().find(|s| s.name() == "ExprStmt")?;
+    let mut te = probe.arg(0)?;
+    // the parentheses are kept as a node of their own in some versions: look through them
+    while te.field("expression").map(|e| e.name() == "Paren").unwrap_or(false) {
+        te = te.field("expression")?.arg(0)?;
+    }
+    let expr = te.field("expression")?;
+    if expr.name() != "BinaryExpr" {
+        return None;
+    }
+    let b = expr.arg(0)?;
+    let ty = enc_type(te.field("ty")?);
+    let side = |name: &str| -> Option<(u8, String, String)> {
+        let t = b.field(name)?;
+        let e = t.field("expression")?;
+        if e.name() == "Cast" {
+            let c = e.arg(0)?;
+            Some((1, enc_type(c.field("typ")?), enc_type(c.field("operand")?.field("ty")?)))
+        } else {
+            Some((0, enc_type(t.field("ty")?), enc_type(t.field("ty")?)))
+        }
+    };
+    let (lc, lty, tl) = side("left")?;
+    let (rc, rty, tr) = side("right")?;
+    let mut oracle = "ok".to_string();
+    if lty != ty || rty != ty {
+        oracle = format!("FAIL C08: an operand of an arithmetic expression of type {ty} is of type {} (left) / {} (right) and not cast to it ;; {}", lty, rty, text.replace('\n', " "));
+    }
+    Some(format!("semt\tarith:{op}\t{tl}\t{tr}\t-\tty={ty};lc={lc};rc={rc}\t{oracle}"))
+}
+
 pub fn run(args: &[String]) {
     silence_panics();
     let mut w = out();
     let shard = arg_u64(args, "--shard", 0);
     let nshards = arg_u64(args, "--nshards", 1);
     let mut count = 0u64;
+    // arithmetic operands: every ordered pair of declared types
+    let vars = arith_vars();
+    for da in &vars {
+        for db in &vars {
+            for op in ["+", "-", "*", "/"] {
+                count += 1;
+                if count % nshards != shard {
+                    continue;
+                }
+                if let Some(line) = arith_case(da, db, op) {
+                    writeln!(w, "{line}").unwrap();
+                }
+            }
+        }
+    }
     for (target, _) in target_types() {
         for is_const in [false, true] {
             for (prelude, value, lit) in value_forms() {
